@@ -6,7 +6,6 @@ use crate::ensure;
 use ldpc_toolbox::codes::dvbs2::Code;
 use ldpc_toolbox::encoder::Encoder;
 use ldpc_toolbox::gf2::GF2;
-use ndarray::Array1;
 use num_traits::{One, Zero};
 use serde::{Deserialize, Serialize};
 
@@ -234,11 +233,14 @@ fn check_encoder(case: &EncCase, p: &mut Probe) -> Check {
                     if t == 0 { 1 } else if t == 1 { 0 } else { (sd & 1) as u8 }
                 })
                 .collect();
-            let arr = Array1::from_iter(msg.iter().map(|&b| if b == 1 { GF2::one() } else { GF2::zero() }));
-            let cw = guarded(|| enc.encode(&arr)).map_err(|e| Fail::new("panic", format!("{name}: encode panicked: {e}")))?;
+            // the message reaches the encoder as an owned array or as one of five kinds of view (reversed,
+            // strided, offset), message t in layout t mod 6
+            let gmsg: Vec<GF2> = msg.iter().map(|&b| if b == 1 { GF2::one() } else { GF2::zero() }).collect();
+            let lay = (t % LAYOUTS as usize) as u8;
+            let cw = guarded(|| with_layout(&gmsg, GF2::one(), lay, |v| enc.encode(&v))).map_err(|e| Fail::new("panic", format!("{name}: encode panicked (message layout {}): {e}", layout_name(lay))))?;
             let cw: Vec<u8> = cw.iter().map(|x| u8::from(x.is_one())).collect();
-            ensure!(cw.len() == n && cw[..k] == msg[..], "not-systematic", "{name}: codeword does not start with the message");
-            ensure!(syndrome_rows_ok(&rows, &cw), "not-codeword", "{name}: encoded word violates a parity check");
+            ensure!(cw.len() == n && cw[..k] == msg[..], "not-systematic", "{name}: codeword does not start with the message (message layout {})", layout_name(lay));
+            ensure!(syndrome_rows_ok(&rows, &cw), "not-codeword", "{name}: encoded word violates a parity check (message layout {})", layout_name(lay));
             p.inner += 1;
         }
     }
@@ -321,7 +323,7 @@ pub fn property() -> Property {
             }),
             Box::new(EnumSub {
                 name: "encoder",
-                rule: "on a thread that has just built encoders for three small matrices whose parity part is nearly a staircase: all 21 codes in ascending order of n-k: Encoder::from_h succeeds and its Debug rendering shows the staircase variant (linear time, no dense elimination; if a renamed variant hides it, building the encoder must cost less than 15 times the construction of the matrix); 8 (thorough 200) messages per code (all-ones, all-zero + pseudo-random from VERIF_SEED): systematic prefix and own H c = 0; inner = encoded messages",
+                rule: "on a thread that has just built encoders for three small matrices whose parity part is nearly a staircase: all 21 codes in ascending order of n-k: Encoder::from_h succeeds and its Debug rendering shows the staircase variant (linear time, no dense elimination; if a renamed variant hides it, building the encoder must cost less than 15 times the construction of the matrix); 8 (thorough 200) messages per code, handed over in six memory layouts in turn (all-ones, all-zero + pseudo-random from VERIF_SEED): systematic prefix and own H c = 0; inner = encoded messages",
                 cases: enc_cases,
                 check: check_encoder,
                 exhaustive: true,
